@@ -1,6 +1,7 @@
 import KmipProps.C02
 import KmipProps.C04
 import KmipProofs.SpecCanon
+import KmipProofs.EncNorm
 /-
   C01 — Decode inverts Encode (up to the documented normalisations), and what Decode returns re-encodes to the same bytes.
 
@@ -70,6 +71,26 @@ theorem C01_roundtrip_stream (sd : SD) (v : Val) (bs more : Bytes) (fin : Fin)
   unfold canonTop
   rw [h]
   simp
+
+/-- the normalised value has the same canonical tree (specification level; no schema condition needed) -/
+theorem C01_canon_of_normalised (sd : SD) (v : Val) (hw : WFv (.struct sd) v) :
+    canonTop sd (normVal (.struct sd) v) = canonTop sd v :=
+  canonVal_norm sd.tag (.struct sd) v hw
+
+/-- the encoder cannot tell a well-formed value from its normalisation: same bytes, or the same failure -/
+theorem C01_reencode (sd : SD) (v : Val) (hd : sd.descOk = true) (hok : SD.OK sd = true) (hw : WFv (.struct sd) v) :
+    encodeSD sd (normVal (.struct sd) v) = encodeSD sd v :=
+  encVal_norm sd.tag (.struct sd) (fun sd' e => by cases e; exact ⟨hd, hok⟩) v hw
+
+/-- C01, second half: Encode ∘ Decode ∘ Encode = Encode — the value Decode returns for the bytes of a well-formed value
+    re-encodes to exactly those bytes -/
+theorem C01_encode_decode_encode (sd : SD) (v v' : Val) (bs : Bytes) (fin : Fin) (n : Nat) (d' : Dec)
+    (hd : sd.descOk = true) (hok : SD.OK sd = true) (ht : sd.tag < tagMax)
+    (hw : WFv (.struct sd) v) (hs : (canonTop sd v).Small = true)
+    (henc : encodeSD sd v = .ok bs) (hdec : decodeSD sd bs fin = .ok (v', n, d')) :
+    encodeSD sd v' = .ok bs := by
+  obtain ⟨e, _⟩ := C01_roundtrip_unique sd v v' bs fin n d' hd hok ht hw hs henc hdec
+  rw [e, C01_reencode sd v hd hok hw, henc]
 
 /-! ### non-vacuity: a concrete schema and value meet every hypothesis, and the chain computes -/
 
